@@ -223,6 +223,25 @@ theorem failure_restores (c : Codec B R) (st : St B R) (call : Call B)
     rw [refine_fs_of_run, h, he.1]
     simp
 
+/-- the exit status is any integer — `Popen.returncode` is negative when the program was killed by a signal —
+    and every value other than 0 is a failure, whatever lies in the result file -/
+theorem failed_of_exit_ne_zero (c : Codec B R) (pre : Option B) (o : Outcome B) (h : o.exit ≠ 0) :
+    failed c pre o = true := by
+  simp [failed, h]
+
+/-- **nonzero_status_restores**: SHELXL killed by a signal (negative status) or leaving with any positive code, with a
+    partly written result of any size ≥ 10 bytes (or any other result state): with a backup the previous .res is back. -/
+theorem nonzero_status_restores (c : Codec B R) (st : St B R) (call : Call B)
+    (hb : call.backup = true) (hp : plausible c st.fs.res call.out = true) (he : call.out.exit ≠ 0) :
+    (refine Fix.all c st call).st.fs.res = st.fs.res ∧ (refine Fix.all c st call).exc ≠ none :=
+  failure_restores c st call hb hp (failed_of_exit_ne_zero c _ _ he)
+
+/-- segmentation fault (−11) after a 60-byte result was written; exit code 255 likewise -/
+example : plausible wc wSt.fs.res ⟨-11, .wrote 60, .good⟩ = true ∧
+    (refine Fix.all wc wSt ⟨some 4, true, ⟨-11, .wrote 60, .good⟩⟩).st.fs.res = wSt.fs.res ∧
+    (refine Fix.all wc wSt ⟨some 4, true, ⟨255, .wrote 60, .missing⟩⟩).st.fs.res = wSt.fs.res ∧
+    (refine Fix.all wc wSt ⟨some 4, true, ⟨-11, .wrote 60, .good⟩⟩).st.mem.doc.rest = wSt.mem.doc.rest := by decide
+
 example : (wSt.fs.res.isSome ∧ failed wc wSt.fs.res ⟨0, .removed, .raises⟩ ∧
     plausible wc wSt.fs.res ⟨0, .removed, .raises⟩) := by decide
 
